@@ -29,6 +29,18 @@ def assigned_names(nodes):
     return out
 
 
+def has_calls(nodes):
+    for n in nodes:
+        for x in ast.walk(n):
+            if isinstance(x, ast.Call):
+                if isinstance(x.func, ast.Attribute) and x.func.attr == 'append':
+                    continue          # building a local list
+                if isinstance(x.func, ast.Name) and (x.func.id in PURE_CALLS or x.func.id[:1].isupper()):
+                    continue          # constructors of tree nodes
+                return True
+    return False
+
+
 def has_effects(nodes):
     for n in nodes:
         for x in ast.walk(n):
@@ -266,6 +278,25 @@ class Loops:
     def for_loop(self, ex, st, env):
         key = self.loop_key(ex, st)
         desc = self.describe(ex, ex.eval(st.iter, env))
+        if desc.kind == 'seq' and not has_calls(st.body):
+            n = L.simp(ex.heap.llen(desc.ref))
+            if not z3.is_int_value(n):
+                # the length may be fixed by the path condition (a list built by this grammar alternative)
+                m = ex.solver.model() if ex.check_sat() == z3.sat else None
+                if m is not None:
+                    c = m.eval(n, model_completion=True)
+                    if z3.is_int_value(c) and c.as_long() <= 8 and ex.check_sat(n != c) == z3.unsat:
+                        n = c
+            if z3.is_int_value(n) and n.as_long() <= 8:
+                for k in range(n.as_long()):
+                    ex.assign(st.target, self.elem(ex, desc, z3.IntVal(k)), env)
+                    try:
+                        ex.exec_block(st.body, env)
+                    except ContinueEx:
+                        continue
+                    except BreakEx:
+                        break
+                return
         if desc.kind == 'pytuple':
             for item in desc.items:
                 ex.assign(st.target, item, env)
